@@ -147,14 +147,17 @@ def run_case(case):
     if not np.isfinite(lib) or err > 1e-9:
         mode = C["tip_modes"][0]
         sig = "C01:value:%s:%s:%s" % (case["tree"], "clock-" + str((case.get("clock") or {}).get("kind")), mode)
-        if "pinv" in case["site"] and np.isfinite(lib):
+        if "pinv" in case["site"] and (np.isfinite(lib) or np.isnan(lib)):
             # mechanism diagnosis: is the whole discrepancy explained by the library's P(0) of the invariant
             # (rate 0) category not being the exact identity?  Substitute the library's own P(0) into the reference.
             import torch
 
             P0 = dic["sm"].p_t(torch.zeros((1, 1), dtype=torch.float64)).detach().numpy()[0, 0]
             ref3, _, _ = phylo.ref_loglik(case, "linear", emp, P_override={0: P0})
-            if abs(ref3 - lib) <= 1e-6 * max(1.0, abs(lib)) and np.abs(P0 - np.eye(S)).max() < 1e-12:
+            explained = (abs(ref3 - lib) <= 1e-6 * max(1.0, abs(lib))) if np.isfinite(lib) else not np.isfinite(ref3)
+            # (NaN: the spurious invariant-category term is negative and larger than the site's true likelihood, so the site
+            # likelihood itself comes out negative; the reference fed the library's P(0) reproduces exactly that)
+            if explained and np.abs(P0 - np.eye(S)).max() < 1e-12:
                 sig = "C01:value:invariant-category:P(0)-roundoff-dominates-site-likelihood"
         V.append(tt.viol(sig, "log-likelihood %.15g, exact marginalisation (%s) %.15g, rel err %.3g [subst %s, site %s, datatype %s, n=%d]"
                          % (lib, method, ref, err, sk, case["site"]["kind"], case["datatype"]["kind"], n), case=case, lib=lib, ref=ref))
